@@ -7,6 +7,10 @@ that z3's non-linear real arithmetic decides.  Units (degree / radian) are tags:
 rad2deg only change the tag.  arcsin / arccos / arctan / arctan2 create a fresh atom constrained by
 its defining equations and the principal range.
 """
+import math
+from fractions import Fraction
+
+import numpy as np
 import z3
 
 from . import core
@@ -19,9 +23,13 @@ class Atom:
     degrees, a set of measure zero that the harnesses state as an assumption), so trigonometric
     identities become identities of rational functions in free variables."""
 
-    def __init__(self, name):
+    def __init__(self, name, rng=(-180.0, 180.0)):
         from .ratfun import Q
         self.name = name
+        # closed interval (degrees) that contains every value the atom's angle can take on the
+        # path: the principal range of the inverse function that made it, or what the harness
+        # assumed about t.  Used to settle comparisons of angles with constants.
+        self.rng = rng
         self.t = z3.Real("tanhalf_" + name)
         den = Q(1 + self.t * self.t)
         self.s = Q(2 * self.t) / den
@@ -121,9 +129,66 @@ class Ang:
             return Ang({a: v * int(k) for a, v in self.coef.items()}, self.unit, self.atoms)
         if isinstance(k, float) and k != 0 and abs(1 / k - round(1 / k)) < 1e-12:
             return self / round(1 / k)
+        if isinstance(k, (float, np.floating)) and self.unit == "deg" and abs(float(k) - math.pi / 180) < 1e-17:
+            return self.deg2rad()           # `np.deg2rad(1) * angle_in_degrees`
+        if isinstance(k, (float, np.floating)) and self.unit == "rad" and abs(float(k) - 180 / math.pi) < 1e-13:
+            return self.rad2deg()
         return Scaled(k, self)
 
     __rmul__ = __mul__
+
+    # ---- order: comparisons with constants are settled by the range of the angle ------------------
+    def _range(self):
+        lo = hi = 0.0
+        for name, k in self.coef.items():
+            a, b = self.atoms[name].rng
+            lo += min(k * a, k * b)
+            hi += max(k * a, k * b)
+        return lo, hi
+
+    def _const_deg(self, c):
+        if isinstance(c, np.ndarray) and c.ndim == 0:
+            c = c[()]
+        if isinstance(c, (int, float, np.integer, np.floating)) and not isinstance(c, bool):
+            c = float(c)
+            return c if self.unit == "deg" else math.degrees(c)
+        return None
+
+    def _cmp(self, c, op):
+        cd = self._const_deg(c)
+        if cd is None:
+            return NotImplemented
+        lo, hi = self._range()
+        eps = 1e-9 * max(1.0, abs(cd))          # float slack of the range bookkeeping
+        if op in ("<", "<="):
+            if hi < cd - eps:
+                return True
+            if lo > cd + eps:
+                return False
+        else:
+            if lo > cd + eps:
+                return True
+            if hi < cd - eps:
+                return False
+        raise TypeError("comparison %r %s %r is not settled by the angle's range [%g, %g]" % (self, op, c, lo, hi))
+
+    def __lt__(self, c):
+        return self._cmp(c, "<")
+
+    def __le__(self, c):
+        return self._cmp(c, "<=")
+
+    def __gt__(self, c):
+        return self._cmp(c, ">")
+
+    def __ge__(self, c):
+        return self._cmp(c, ">=")
+
+    def __abs__(self):
+        return AbsAng(self)
+
+    real = property(lambda self: self)
+    imag = 0
 
     def __truediv__(self, k):
         if isinstance(k, (int, float)) and float(k) == int(k) and int(k) != 0:
@@ -144,6 +209,45 @@ class Ang:
         return "Ang(%s %s)" % (" + ".join("%d*%s" % (v, k) for k, v in sorted(self.coef.items())) or "0", self.unit)
 
 
+class AbsAng:
+    """abs(angle): only comparisons with constants, settled by the range"""
+    _symx = True
+
+    def __init__(self, ang):
+        self.ang = ang
+
+    def _cmp(self, c, op):
+        a = self.ang
+        cd = a._const_deg(c)
+        if cd is None:
+            return NotImplemented
+        lo, hi = a._range()
+        alo = 0.0 if lo <= 0 <= hi else min(abs(lo), abs(hi))
+        ahi = max(abs(lo), abs(hi))
+        eps = 1e-9 * max(1.0, abs(cd))
+        if op == "<":
+            if ahi < cd - eps:
+                return True
+            if alo > cd + eps:
+                return False
+        else:
+            if alo > cd + eps:
+                return True
+            if ahi < cd - eps:
+                return False
+        raise TypeError("comparison |%r| %s %r is not settled by the angle's range" % (a, op, c))
+
+    def __lt__(self, c):
+        return self._cmp(c, "<")
+
+    __le__ = __lt__
+
+    def __gt__(self, c):
+        return self._cmp(c, ">")
+
+    __ge__ = __gt__
+
+
 class Scaled:
     """number * angle (an arc length r * c): opaque apart from its parts"""
     _symx = True
@@ -154,19 +258,51 @@ class Scaled:
 
 _count = [0]
 INVERSE_OF = {}        # atom name -> how an inverse trigonometric function defined it
+# Harness-supplied angles (like ratfun.SQRT_HINTS): arcsin / arccos / arctan2 return the hint X itself
+# when their argument is *identically* sin X / cos X / (rho sin X, rho cos X) with rho > 0 and the
+# range of X lies inside the function's principal range -- the rewriting arcsin(sin X) = X etc.
+ANGLE_HINTS = []
 
 
-def _fresh(tag):
+def _hint(kind, q, q2=None):
+    from .ratfun import poly_eq, value_true
+    for X in ANGLE_HINTS:
+        lo, hi = X._range()
+        if kind == "arcsin" and -90.0 <= lo and hi <= 90.0:
+            if bool(value_true(poly_eq(q, X.sin()))):
+                return X
+        elif kind == "arccos" and 0.0 <= lo and hi <= 180.0:
+            if bool(value_true(poly_eq(q, X.cos()))):
+                return X
+        elif kind == "arctan2" and -180.0 < lo and hi <= 180.0:
+            s, c = X._sc()
+            if bool(value_true(poly_eq(q * c, q2 * s))):          # (y, x) parallel to (sin X, cos X)
+                rho = q * s + q2 * c
+                if not core.branch(z3.Not((rho > 0).t)):           # ... and pointing the same way
+                    return X
+    return None
+
+
+def _fresh(tag, rng=(-180.0, 180.0)):
     _count[0] += 1
     p = core._P
     p.fresh += 1
-    return Atom("%s%d" % (tag, p.fresh))
+    return Atom("%s%d" % (tag, p.fresh), rng)
 
 
-def angle(ctx, name, unit="deg", halves=True):
-    """a symbolic input angle; with halves=True it is 2 * atom so that angle / 2 stays exact"""
+def angle(ctx, name, unit="deg", halves=True, t_lo=None, t_hi=None):
+    """a symbolic input angle; with halves=True it is 2 * atom so that angle / 2 stays exact.
+    t_lo / t_hi (rationals) bound t = tan(atom / 2) by assumption and give the atom its range."""
     a = Atom(name)
     ctx.path.inputs["tanhalf_" + name] = a.t
+    lo, hi = -180.0, 180.0
+    if t_lo is not None:
+        ctx.assume(Sym(a.t >= lift(Fraction(t_lo))))
+        lo = math.degrees(2 * math.atan(float(t_lo))) - 1e-9
+    if t_hi is not None:
+        ctx.assume(Sym(a.t <= lift(Fraction(t_hi))))
+        hi = math.degrees(2 * math.atan(float(t_hi))) + 1e-9
+    a.rng = (lo, hi)
     return Ang({name: 2 if halves else 1}, unit, {name: a})
 
 
@@ -192,7 +328,10 @@ def arcsin(x):
     q = _q(x)
     if not _assume() and core.branch(z3.Or((q < -1).t, (q > 1).t)):
         return float("nan")
-    a = _fresh("asin")
+    h = _hint("arcsin", q)
+    if h is not None:
+        return Ang(h.coef, "rad", h.atoms)
+    a = _fresh("asin", (-90.0, 90.0))
     INVERSE_OF[a.name] = ("arcsin", q)
     _eq_fact(a.s, q)
     core.assume_fact((a.c >= 0).t)
@@ -203,7 +342,10 @@ def arccos(x):
     q = _q(x)
     if not _assume() and core.branch(z3.Or((q < -1).t, (q > 1).t)):
         return float("nan")
-    a = _fresh("acos")
+    h = _hint("arccos", q)
+    if h is not None:
+        return Ang(h.coef, "rad", h.atoms)
+    a = _fresh("acos", (0.0, 180.0))
     INVERSE_OF[a.name] = ("arccos", q)
     _eq_fact(a.c, q)
     core.assume_fact((a.s >= 0).t)
@@ -212,7 +354,7 @@ def arccos(x):
 
 def arctan(x):
     q = _q(x)
-    a = _fresh("atan")
+    a = _fresh("atan", (-90.0, 90.0))
     INVERSE_OF[a.name] = ("arctan", q)
     _eq_fact(a.s, q * a.c)
     core.assume_fact((a.c > 0).t)
@@ -223,6 +365,9 @@ def arctan2(y, x):
     qy, qx = _q(y), _q(x)
     if not _assume() and core.branch(z3.And((qy == 0).t, (qx == 0).t)):
         return Ang({}, "rad", {})
+    h = _hint("arctan2", qy, qx)
+    if h is not None:
+        return Ang(h.coef, "rad", h.atoms)
     a = _fresh("atan2")
     INVERSE_OF[a.name] = ("arctan2", qy, qx)
     from .ratfun import Q
